@@ -1,8 +1,8 @@
 (* Executable model of the document loaders of kolibrie/src/sparql_database.rs
      decode_ntriples_literal, parse_ntriples_parts, clean_ntriples_term, parse_ntriples_line,
      parse_nquads_line, encode_term_star, split_quoted_triple_content, decode_any,
-     parse_ntriples (chunks of 1000 lines), encode_triples, parse_ntriples_and_add,
-     parse_nquads_and_add, add_quad_parts,
+     parse_ntriples (chunks of 1000 lines), encode_cleaned_term, encode_triples, parse_ntriples_and_add,
+     parse_nquads_and_add,
      parse_n3 (private database per chunk + Dictionary::merge), parse_statement, resolve_term,
      parse_turtle, tokenize_turtle_star_line, clean_turtle_term, resolve_query_term
    and of shared/src/dictionary.rs  Dictionary::{encode, decode, decode_term, merge},
@@ -386,11 +386,16 @@ Definition den (x : db) : list lquad := map (den_quad x) (d_quads x).
 
 (* ========================================================================================== *)
 (* parse_ntriples_and_add = parse_ntriples ; encode_triples ; add_triple                       *)
+(* encode_cleaned_term: a term the line loaders have already cleaned is interned as it is; only what looks like
+   a quoted triple is parsed again *)
+Definition encode_cleaned (x : db) (term : str) : db * N :=
+  if starts_with sLTLT term && ends_with sGTGT term then encode_star x term else db_encode x term.
+
 Definition encode_triple (x : db) (t : str * str * str) : db * (N * N * N) :=
   let '(s, p, o) := t in
-  let (x1, si) := encode_star x s in
-  let (x2, pi) := encode_star x1 p in
-  let (x3, oi) := encode_star x2 o in
+  let (x1, si) := encode_cleaned x s in
+  let (x2, pi) := encode_cleaned x1 p in
+  let (x3, oi) := encode_cleaned x2 o in
   (x3, (si, pi, oi)).
 
 Fixpoint encode_list (x : db) (l : list (str * str * str)) : db * list (N * N * N) :=
@@ -408,15 +413,21 @@ Definition load_nt_n (n : nat) (lines : list str) (x : db) : db :=
   fold_left add_triple es x1.
 Definition load_nt (lines : list str) (x : db) : db := load_nt_n CHUNK lines x.
 
-(* parse_nquads_and_add: sequential *)
+(* parse_nquads_and_add: sequential; the graph label is interned first, verbatim *)
 Definition load_nq_stmt (x : db) (t : str * str * str * option str) : db :=
   let '(s, p, o, g) := t in
-  let (x1, si) := encode_star x s in
-  let (x2, pi) := encode_star x1 p in
-  let (x3, oi) := encode_star x2 o in
   match g with
-  | Some gs => let (x4, gi) := db_encode x3 gs in add_quad x4 (si, pi, oi, Some gi)   (* add_quad_parts *)
-  | None => add_quad x3 (si, pi, oi, None)
+  | Some gs =>
+      let (x0, gi) := db_encode x gs in
+      let (x1, si) := encode_cleaned x0 s in
+      let (x2, pi) := encode_cleaned x1 p in
+      let (x3, oi) := encode_cleaned x2 o in
+      add_quad x3 (si, pi, oi, Some gi)
+  | None =>
+      let (x1, si) := encode_cleaned x s in
+      let (x2, pi) := encode_cleaned x1 p in
+      let (x3, oi) := encode_cleaned x2 o in
+      add_quad x3 (si, pi, oi, None)
   end.
 Definition load_nq (lines : list str) (x : db) : db :=
   fold_left load_nq_stmt (flat_map nq_line lines) x.
